@@ -172,6 +172,65 @@ def unit_corpus(a):
     return stats
 
 
+# ------------------------------------------------------------------ totality over histories: one Parser (default matcher) / one stream for many texts
+def check_history(case, stats):
+    texts, stops = case["texts"], case["stops"]
+    if any(gh.names_existing_path(t) for t in texts):
+        stats.label("excluded_known_F1")
+        return
+    parser = gh.Parser()
+    compiler = gh.Compiler()
+    ev = gh.GherkinEvents(gh.GherkinEvents.Options(True, True, True))
+    outcomes = []
+    for i, (t, stop) in enumerate(zip(texts, stops)):
+        parser.stop_at_first_error = stop
+        try:
+            try:
+                doc = parser.parse(t)
+                compiler.compile(dict(doc, uri="u"))
+                outcomes.append("acc")
+            except gh.ParserError:
+                outcomes.append("rej")
+            for env in ev.enum({"source": {"uri": "u", "data": t, "mediaType": "text/x.cucumber.gherkin+plain"}}):
+                if not isinstance(env, dict) or len(env) != 1 or next(iter(env)) not in ALLOWED_ENVELOPES:
+                    raise AssertionError("stream yielded %r" % (env,))
+        except AssertionError as e:
+            raise Violation(case, str(e))
+        except Exception as e:  # noqa
+            if exc_origin(e) != "library":
+                raise
+            raise Violation(case, "%s escapes the pipeline on text #%d of a history through one Parser / one stream (outcomes so far %r): %s [%s]" % (
+                type(e).__name__, i, outcomes, str(e)[:160], "/".join(exc_bucket(e)[1:])))
+    stats.case(case, "rej" in outcomes[:-1], sample={"outcomes": outcomes, "stops": stops, "first": texts[0][:120]}, labels=["len=%d" % len(texts)])
+
+
+def g_history(s):
+    from .c15 import POOL
+    names = sorted(POOL)
+    texts = [POOL[s.choice(names)] if s.int(2) else noisy.g_noisy(s)[0] for _ in range(s.rng(2, 4))]
+    return {"sub": "history", "texts": texts, "stops": [s.int(3) == 0 for _ in texts]}
+
+
+def unit_histories(a):
+    import itertools
+    from .c15 import POOL
+    stats = Stats()
+    names = sorted(POOL)
+    if a["kind"] == "pool":
+        def gen():
+            n = 0
+            for x, y in itertools.product(names, repeat=2):
+                for stops in ([False, False], [True, False], [True, True]):
+                    n += 1
+                    if n % a["nshards"] == a["shard"]:
+                        yield {"sub": "history", "texts": [POOL[x], POOL[y]], "stops": stops}
+        sweep(stats, gen(), check_history)
+    else:
+        strat = st.binary(min_size=3500, max_size=3500).map(lambda b: g_history(model.Src(b)))
+        hyp(stats, strat, check_history, a["n"], shard_seed(a["seed"], a["shard"], 7))
+    return stats
+
+
 # ------------------------------------------------------------------ linear work on length-scaled adversarial families
 def family(name, n):
     F = "Feature: f\n Scenario: s\n  Given x\n"
@@ -292,7 +351,7 @@ def demonstrate_f1():
 
 
 def replay(case, stats):
-    return {"text": check_text, "scaling": check_scaling}[case["sub"]](case, stats)
+    return {"text": check_text, "scaling": check_scaling, "history": check_history}[case["sub"]](case, stats)
 
 
 def run(ctx):
@@ -308,6 +367,8 @@ def run(ctx):
         for i in range(2 if q else 16):
             units.append({"kind": kind, "n": n, "seed": ctx.seed, "shard": i})
     ctx.units("generated-texts", unit_texts, units, procs=16)
+    hu = [{"kind": "pool", "shard": i, "nshards": 8} for i in range(8)] + [{"kind": "sampled", "n": 100 if q else 1500, "seed": ctx.seed, "shard": i} for i in range(4 if q else 16)]
+    ctx.units("histories-one-parser-one-stream", unit_histories, hu, procs=16)
     fz = []
     for i in range(2 if q else 16):
         fz.append({"runs": 4000 if q else 150000, "seed": ctx.seed * 100, "shard": i, "mode": "structured" if i % 2 else "text", "seed_corpus": i % 4 >= 2})
